@@ -11,6 +11,10 @@ from asyncio import events
 __all__ = ("SimHang", "SeamMissed", "VirtualLoop")
 
 
+class SimAbort(Exception):
+    """The scenario was stopped on purpose (a monitor saw a state the code cannot survive)."""
+
+
 class SimHang(Exception):
     """The simulated system cannot make progress any more (or exceeded its budgets)."""
 
@@ -64,6 +68,7 @@ class VirtualLoop(asyncio.BaseEventLoop):
         self.max_vtime = max_vtime
         self._clock_resolution = 1e-9
         self.tick_hook = None  # callable(loop) run at the start of every tick
+        self.abort_reason = None  # set by World.request_abort(): stop at the next tick
 
     # -- clock -----------------------------------------------------------------------
     def time(self):
@@ -123,6 +128,8 @@ class VirtualLoop(asyncio.BaseEventLoop):
         self.ticks += 1
         if self.ticks > self.max_ticks:
             raise SimHang("tick budget exceeded", self.ticks, self._vtime)
+        if self.abort_reason is not None:
+            raise SimAbort(self.abort_reason)
         if self.tick_hook is not None:
             self.tick_hook(self)
 
